@@ -96,6 +96,14 @@ class C16(Prop):
             if rng.random() < 0.5:
                 u = rng.choice([b'http://', b'http:/', b'HTTP://', b'https://', b'/']) + u
             add(3, u, 'uri-random')
+        # structured URIs: concatenations of scheme-like, separator and name pieces (repeated scheme prefixes, schemes
+        # in the path, ports, queries, non-ASCII names)
+        pieces = [b'http://', b'http:/', b'http:', b'/', b'//', b'a', b'a.b', b':80', b'?q', EACUTE, b'h', b'HTTP://', b'%2F', b'#f']
+        for n in range(1, 4 if tier == 'quick' else 5):
+            for tup in itertools.product(pieces, repeat=n):
+                add(3, b''.join(tup), 'uri-pieces')
+        for _ in range(2000 if tier == 'quick' else 100000):
+            add(3, b''.join(rng.choice(pieces) for _ in range(rng.randint(4, 7))), 'uri-pieces-random')
         for u in [b'http://', b'http:///', b'http://a', b'http://a/', b'/', b'//', b'*', b'\xff', b'http://\xff/', b'/\xff',
                   b'http://a/\xc3\xa9', b'\xc3\xa9/', b'http://\xc3\xa9/\xc3\xa9']:
             add(3, u, 'uri-edge')
